@@ -61,7 +61,8 @@ CONSTANTS MainIns,     \* subset of {"init", "sub"}: where the program lives
           Levels,      \* subset of 1..3: number of leading dots of the relative imports
           Chains,      \* subset of {"-","other.OK","pkg.other.OK"}: base classes written as dotted chains ("-" = a bare name)
           AsNames,     \* subset of Names \cup {"-"}   ("-" = no `as` clause)
-          AllowInst,   \* `def __init__(self): self.q = 1` allowed in classes
+          AllowInst,   \* `def __init__(self): self.<x> = 1` allowed in classes
+          InstNames,   \* the names x such an __init__ may assign (subset of Names \cup {"q"})
           AllowRebind, \* FALSE: forbid statements that change what a base-class name resolves to afterwards
           Emit
 
@@ -251,7 +252,8 @@ DecoLabels(deco, asy) ==
      [] deco = "cprop" -> {"cached", "property"} [] OTHER -> {})
   \cup (IF asy THEN {"async"} ELSE {})
 
-\* Visitor.handle_function (+ the generic_visit of an __init__ body: `self.q = 1` -> instance attribute on the class)
+\* Visitor.handle_function (+ the generic_visit of an __init__ body: `self.x = 1` -> handle_attribute with parent = the class:
+\* an Attribute labelled instance-attribute that also takes over the labels of an existing member x of the class and replaces it)
 VisitDef(t, k) ==
   LET labels == DecoLabels(k.deco, k.async)
       node == IF "property" \in labels
@@ -259,9 +261,20 @@ VisitDef(t, k) ==
               ELSE SNode("function", StaticParams(FullParams(InClass, k.deco, k.sig)), "-", StaticDoc(k.doc),
                          <<>>, labels, "def", "-", k.doc)
       t1 == SetMember(t, Scope \o <<k.n>>, node)
+      ip == Scope \o <<k.what>>
+      old == IF ip \in DOMAIN t1 THEN (IF t1[ip].kind # "alias" THEN t1[ip].labels ELSE {}) ELSE {}
   IN IF k.inst
-     THEN SetMember(t1, Scope \o <<"q">>, SNode("attribute", <<>>, "-", <<>>, <<>>, {"instance-attribute"}, "inst", "lit", "none"))
+     THEN SetMember(t1, ip, SNode("attribute", <<>>, "-", <<>>, <<>>, old \cup {"instance-attribute"}, "inst", "lit", "none"))
      ELSE t1
+
+\* handle_function for `@n.setter def n(self, v)`: get_base_property - when the member n of the current class carries the
+\* label "property" the function becomes its setter (label writable), otherwise it is an ordinary function that replaces n
+VisitSetter(t, k) ==
+  LET p == Scope \o <<k.n>>
+      isprop == IF p \in DOMAIN t THEN (t[p].kind # "alias" /\ "property" \in t[p].labels) ELSE FALSE
+  IN IF isprop THEN [t EXCEPT ![p].labels = @ \cup {"writable"}]
+     ELSE SetMember(t, p, SNode("function", StaticParams(<<PS("self", "positional or keyword", FALSE), PS("v", "positional or keyword", FALSE)>>),
+                                "-", <<>>, <<>>, {}, "setter", "-", "none"))
 
 \* Visitor.visit_classdef: bases are expressions, kept by name; current := the class
 VisitClass(t, k) ==
@@ -276,7 +289,9 @@ VisitClass(t, k) ==
 VisitAttr(t, k) ==
   LET p == Scope \o <<k.n>>
       old == IF p \in DOMAIN t THEN (IF t[p].kind # "alias" THEN t[p].labels ELSE {}) ELSE {}
-  IN SetMember(t, p, SNode("attribute", <<>>, "-", <<>>, <<>>, old, k.t, k.val, "none"))
+      own == IF ~InClass THEN {"module-attribute"}
+             ELSE IF k.t = "annonly" THEN {"instance-attribute"} ELSE {"class-attribute", "instance-attribute"}
+  IN SetMember(t, p, SNode("attribute", <<>>, "-", <<>>, <<>>, old \cup own, k.t, k.val, "none"))
 
 \* Visitor.visit_importfrom
 VisitFrom(t, k) ==
@@ -352,17 +367,27 @@ RebindOk(t) == AllowRebind \/ BasesStable(t)
 StmtDef ==
   /\ Budget /\ "def" \in Stmts
   /\ \E n \in Names \cup (IF InClass /\ AllowInst THEN {"__init__"} ELSE {}),
-        deco \in (IF InClass THEN Decos ELSE {"none"}), asy \in Asyncs, sig \in Sigs, doc \in Docs, inst \in BOOLEAN :
+        deco \in (IF InClass THEN Decos ELSE {"none"}), asy \in Asyncs, sig \in Sigs, doc \in Docs, tgt \in InstNames \cup {"-"} :
        /\ (n = "__init__") => (deco = "none" /\ ~asy)
-       /\ inst => n = "__init__"
-       /\ asy => deco \in {"none", "static", "class"}
+       /\ (tgt # "-") => n = "__init__"
        /\ deco = "cprop" => RtLookup("cached_property") = CpId      \* the decorator name must be bound to functools'
-       /\ LET k == Tok("def", n, deco, asy, sig, doc, "-", "-", "-", "-", inst)
+       /\ LET inst == tgt # "-"
+              k == Tok("def", n, deco, asy, sig, doc, "-", tgt, "-", "-", inst)
               o == Obj(IF asy THEN "coroutine" ELSE "function", deco, MainPath, Scope \o <<n>>, DocLines(doc), <<>>,
                        FullParams(InClass, deco, sig), <<>>)
               b == BindIn(Alloc(heap, o), frames, n, nid, Len(prog) + 1)
           IN /\ RebindOk(VisitDef(st, k))
              /\ st' = VisitDef(st, k) /\ heap' = b[1] /\ frames' = b[2] /\ nid' = nid + 1 /\ Push(k)
+  /\ Same
+
+\* `@n.setter def n(self, v)` in a class body whose n is a property object: property.setter returns a new property (same fget)
+StmtSetter ==
+  /\ Budget /\ "setter" \in Stmts /\ InClass
+  /\ \E n \in Names :
+       /\ IF n \in DOMAIN Last(frames).vars THEN heap[Last(frames).vars[n]].wrap = "prop" ELSE FALSE
+       /\ LET k == Tok("setter", n, "-", FALSE, "-", "-", "-", "-", "-", "-", FALSE)
+              b == BindIn(Alloc(heap, heap[Last(frames).vars[n]]), frames, n, nid, Len(prog) + 1)
+          IN /\ st' = VisitSetter(st, k) /\ heap' = b[1] /\ frames' = b[2] /\ nid' = nid + 1 /\ Push(k)
   /\ Same
 
 \* CPython evaluates the base expression: name lookup, then one getattr per further part; 0 = does not evaluate to a class
@@ -585,7 +610,8 @@ SkelOf(kind, params, bases, doc, target, labels) ==
 LoaderReplaces(p) == IsInit /\ p[1] = "other"
 Exempt(p) == Last(p) \in InterpDunders \/ LoaderReplaces(p)
 SkelStatic(t) ==
-  LET keep == {p \in DOMAIN t : ~Exempt(p) /\ t[p].origin # "inst"}        \* instance attributes assigned in __init__: exempt
+  \* instance attributes assigned in __init__: exempt - unless the assignment took over a class-level member (its labels show it)
+  LET keep == {p \in DOMAIN t : ~Exempt(p) /\ ~(t[p].origin = "inst" /\ t[p].labels = {"instance-attribute"})}
   IN [p \in keep \cup {<<>>} |->
         IF p = <<>> THEN SK("module", <<>>, <<>>, StaticDoc(mdoc), <<>>, "-")
         ELSE SkelOf(t[p].kind, t[p].params, LazyBase(t, p), t[p].doc, t[p].target, t[p].labels)]
@@ -614,6 +640,7 @@ Cause(t, d, p, clause) ==
       o == IF hasS THEN t[p].origin ELSE "absent"
   IN IF o = "annonly" /\ clause \in {"members", "kind"} THEN "annonly"
      ELSE IF o = "ref" /\ clause = "kind" THEN "ref"
+     ELSE IF clause \in {"members", "kind"} /\ o = "inst" THEN "init-assign-replaces-member"
      ELSE IF clause = "members" /\ o = "import" /\ ~hasD /\ main = "init" THEN "import-self"
      ELSE IF clause \in {"target", "kind"} /\ o = "from" /\ t[p].val = "attr-shadow" THEN "from-package-attribute"
      ELSE IF clause = "bases" /\ hasS /\ Bvia(t, p) = "annonly" THEN "annonly"
@@ -651,7 +678,7 @@ Init ==
   /\ heap = InitHeap(main, mdoc) /\ nid = FirstFree /\ frames = <<>>
   /\ pc = "build" /\ dy = <<>> /\ skS = <<>> /\ skD = <<>> /\ diffs = {} /\ xdump = {}
 
-Next == StmtDef \/ StmtClass \/ StmtEnd \/ StmtAssign \/ StmtAnnOnly \/ StmtFrom \/ StmtImport \/ StmtRef \/ Finish
+Next == StmtDef \/ StmtSetter \/ StmtClass \/ StmtEnd \/ StmtAssign \/ StmtAnnOnly \/ StmtFrom \/ StmtImport \/ StmtRef \/ Finish
 Spec == Init /\ [][Next]_vars
 
 \* ------------------------------------------------------------------------------------------
@@ -667,6 +694,7 @@ DiffsComplete == Done => ((diffs = {}) <=> (skS = skD))
 \* one invariant per recorded root cause: TLC's counterexample is the defect's witness program
 NoAnnOnly == Done => \A x \in diffs : x.cause # "annonly"
 NoFromPackageAttribute == Done => \A x \in diffs : x.cause # "from-package-attribute"
+NoInitAssignReplacesMember == Done => \A x \in diffs : x.cause # "init-assign-replaces-member"
 NoImportSelf == Done => \A x \in diffs : x.cause # "import-self"
 NoBaseRebound == Done => \A x \in diffs : x.cause # "base-rebound"
 NoRef == Done => \A x \in diffs : x.cause # "ref"
